@@ -133,7 +133,9 @@ class Modulate(Stream):
         t2 = mk_ton(case["t2"])
         comp = mlang.guarded(lambda: [bool((c % t) % t2 == c % (t + t2)), fields(((c % t) % t2).tonality),
                                       fields((c % (t + t2)).tonality)])
+        meth = mlang.guarded(lambda: c.modulate(t))
         return {"ton": fields(cm.tonality), "oct": int(cm.octave), "ext": cm.extension == c.extension and cm.element == c.element,
+                "method": None if mlang.is_exc(meth) else [fields(meth.tonality), int(meth.octave), meth.extension, int(meth.element)],
                 "p0": pitch(lambda: c.to_pitch(n)), "p1": pitch(lambda: cm.to_pitch(n)),
                 "p2": pitch(lambda: c.o(case["k"]).to_pitch(n)), "p3": pitch(lambda: c.to_pitch(n.o(case["k"]))),
                 "compose": comp}
@@ -149,6 +151,8 @@ class Modulate(Stream):
         p0 = r["p0"]
         if not r["ext"]:
             return {"sig": "modulate-changes-chord", "msg": "degree or extension changed"}
+        if r["method"] != [r["ton"], r["oct"], mlang.mk_chord(c).extension, c["elem"]]:
+            return {"sig": "modulate-method-differs-from-operator", "msg": f"chord.modulate(t) gives {r['method']}, chord % t gives {[r['ton'], r['oct']]}"}
         if mlang.is_exc(r["compose"]) or not r["compose"][0] or r["compose"][1] != r["compose"][2]:
             return {"sig": "modulation-does-not-compose", "msg": str(r["compose"])}
         if mlang.is_exc(p0) or p0 is None:
